@@ -393,6 +393,39 @@ void runStream(const Plan& p)
 				{
 					asl::String s = asl::Xdl::encode(build(tree), r.below(2) ? asl::Json::PRETTY : asl::Json::NONE);
 					text.assign(*s, (size_t)s.length());
+					// XDL class tags (Name{...}) in front of some objects; names that begin like the Y/N booleans or the
+					// true/false/null literals are the interesting ones for a parser that decides on a prefix
+					Prng rt(mix64((uint64_t)o.arg(1), 31337));
+					if (rt.below(2))
+					{
+						static const char* TAGS[] = {"Node", "Yes", "No", "N", "Y", "Y_1", "N.a", "Tag", "truth", "falsey", "nullable", "x9", "Ydata"};
+						std::vector<size_t> braces;
+						bool inStr = false;
+						for (size_t i = 0; i < text.size(); i++)
+						{
+							if (inStr)
+							{
+								if (text[i] == '\\')
+									i++;
+								else if (text[i] == '"')
+									inStr = false;
+							}
+							else if (text[i] == '"')
+								inStr = true;
+							else if (text[i] == '{')
+								braces.push_back(i);
+						}
+						int nt = 1 + (int)rt.below(3);
+						for (int k = 0; k < nt && !braces.empty(); k++)
+						{
+							size_t bi = rt.below((uint32_t)braces.size());
+							const char* tag = TAGS[rt.below(sizeof TAGS / sizeof TAGS[0])];
+							text.insert(braces[bi], tag);
+							for (size_t j = bi; j < braces.size(); j++)
+								braces[j] += strlen(tag);
+							braces.erase(braces.begin() + (long)bi);
+						}
+					}
 				}
 				else
 					ref::writeJson(text, tree, r, kind == 0);
